@@ -286,21 +286,150 @@ Proof.
   apply IH.
 Qed.
 (* if the last increment is zero the stored residual is the residual of the final state *)
-Lemma stored_residual_partial : forall h z x0 steps,
+Lemma stored_residual_old_partial : forall h z x0 steps,
   (forall a b, a == b -> h a == h b) ->
   G19_last_step_zero steps = true ->
-  stored_residual h z x0 steps == z - h (final_state h z x0 steps).
+  stored_residual_old h z x0 steps == z - h (final_state h z x0 steps).
 Proof.
   intros h z x0 steps Hh G. unfold G19_last_step_zero in G.
   destruct (rev steps) as [|d l] eqn:E; [discriminate|].
   assert (steps = rev l ++ [d]) as -> by (rewrite <- (rev_involutive steps), E; reflexivity).
-  apply qeqb_eq in G. unfold stored_residual, final_state. rewrite wls_loop_app. cbn [fst snd]. qnorm.
+  apply qeqb_eq in G. unfold stored_residual_old, final_state. rewrite wls_loop_app. cbn [fst snd]. qnorm.
   apply Qplus_inj_l. apply Qopp_comp. apply Hh. rewrite qadd_correct, G. ring.
 Qed.
 (* in general it is not: exact measurement z = h(x_final), yet a non-zero residual is handed to the bad-data tests *)
-Lemma stored_residual_refuted :
+Lemma stored_residual_old_refuted :
   exists (h : Q -> Q) z x0 steps,
-    z - h (final_state h z x0 steps) == 0 /\ ~ stored_residual h z x0 steps == z - h (final_state h z x0 steps).
+    z - h (final_state h z x0 steps) == 0 /\ ~ stored_residual_old h z x0 steps == z - h (final_state h z x0 steps).
 Proof.
   exists (fun x => x), 1, 0, [1]. vm_compute. split; [reflexivity | intro H; discriminate H].
 Qed.
+
+(* ---------------------------------------------------------------- the gain matrix is positive definite on full column rank *)
+Definition hd_l (m : meas) (d : list Q) (l : list nat) : Q := qsum (map (fun k => qmul (col k m) (nth k d 0)) l).
+Definition hd (n : nat) (m : meas) (d : list Q) : Q := hd_l m d (seq 0 n).          (* h_i . d *)
+Definition gt_l (l : list nat) (ms : list meas) (d : list Q) (j : nat) : Q :=
+  qsum (map (fun k => qmul (gain j k ms) (nth k d 0)) l).
+Definition qf_l (n : nat) (l : list nat) (ms : list meas) (d : list Q) : Q :=
+  qsum (map (fun j => qmul (nth j d 0) (gain_times n ms d j)) l).
+
+Lemma gain_cons : forall j k m ms, gain j k (m :: ms) == col j m * wgt m * col k m + gain j k ms.
+Proof. intros. unfold gain. cbn [map]. rewrite qsum_cons. qnorm. reflexivity. Qed.
+
+Lemma gt_l_cons : forall l m ms d j,
+  gt_l l (m :: ms) d j == col j m * wgt m * hd_l m d l + gt_l l ms d j.
+Proof.
+  induction l as [|a l IH]; intros m ms d j; unfold gt_l, hd_l in *; cbn [map].
+  - rewrite !qsum_nil. ring.
+  - rewrite !qsum_cons. qnorm. rewrite IH. rewrite gain_cons. ring.
+Qed.
+Lemma gain_times_cons : forall n m ms d j,
+  gain_times n (m :: ms) d j == col j m * wgt m * hd n m d + gain_times n ms d j.
+Proof. intros. apply (gt_l_cons (seq 0 n)). Qed.
+
+Lemma qf_l_cons : forall n l m ms d,
+  qf_l n l (m :: ms) d ==
+  wgt m * hd n m d * qsum (map (fun j => qmul (nth j d 0) (col j m)) l) + qf_l n l ms d.
+Proof.
+  intros n l m ms d. induction l as [|a l IH]; unfold qf_l in *; cbn [map].
+  - rewrite !qsum_nil. ring.
+  - rewrite !qsum_cons. qnorm. rewrite IH. rewrite gain_times_cons. ring.
+Qed.
+Lemma dh_hd : forall m d l, qsum (map (fun j => qmul (nth j d 0) (col j m)) l) == hd_l m d l.
+Proof.
+  intros m d l. unfold hd_l. induction l as [|a l IH]; cbn [map]; [reflexivity|].
+  rewrite !qsum_cons. qnorm. rewrite IH. ring.
+Qed.
+Lemma gain_times_nil : forall n d j, gain_times n [] d j == 0.
+Proof.
+  intros. unfold gain_times. apply qsum_zero. intros x Hx. apply in_map_iff in Hx. destruct Hx as [k [<- _]].
+  unfold gain. cbn [map]. rewrite qsum_nil. qnorm. ring.
+Qed.
+
+(* d^T G d = sum_i w_i (h_i . d)^2 *)
+Lemma quadratic_form : forall n ms d,
+  qf_l n (seq 0 n) ms d == qsum (map (fun m => qmul (wgt m) (qmul (hd n m d) (hd n m d))) ms).
+Proof.
+  intros n ms d. induction ms as [|m ms IH].
+  - cbn [map]. rewrite qsum_nil. unfold qf_l. apply qsum_zero. intros x Hx. apply in_map_iff in Hx.
+    destruct Hx as [j [<- _]]. qnorm. rewrite gain_times_nil. ring.
+  - rewrite qf_l_cons, dh_hd, IH. cbn [map]. rewrite qsum_cons. qnorm. unfold hd. ring.
+Qed.
+
+Lemma qsum_nonneg_zero : forall l, (forall x, In x l -> 0 <= x) -> qsum l == 0 -> forall x, In x l -> x == 0.
+Proof.
+  induction l as [|a l IH]; intros Hn Hs x Hx; [destruct Hx|].
+  rewrite qsum_cons in Hs. qnorm.
+  pose proof (Hn a (or_introl eq_refl)) as Ha.
+  pose proof (qsum_nonneg l (fun y Hy => Hn y (or_intror Hy))) as Hl.
+  destruct Hx as [<-|Hx]; [lra|]. apply IH; try assumption; [intros; apply Hn; right; assumption | lra].
+Qed.
+
+(* G d = 0 with positive weights forces h_i . d = 0 for every measurement *)
+Lemma gain_kernel : forall n ms d,
+  (forall m, In m ms -> 0 < wgt m) ->
+  (forall j, (j < n)%nat -> gain_times n ms d j == 0) ->
+  forall m, In m ms -> hd n m d == 0.
+Proof.
+  intros n ms d Hw Hg m Hm.
+  assert (Hq : qf_l n (seq 0 n) ms d == 0).
+  { unfold qf_l. apply qsum_zero. intros x Hx. apply in_map_iff in Hx. destruct Hx as [j [<- Hj]].
+    apply in_seq in Hj. qnorm. rewrite (Hg j) by lia. ring. }
+  rewrite quadratic_form in Hq.
+  assert (Hnn : forall x, In x (map (fun m : meas => qmul (wgt m) (qmul (hd n m d) (hd n m d))) ms) -> 0 <= x).
+  { intros x Hx. apply in_map_iff in Hx. destruct Hx as [m' [<- Hm']]. qnorm. specialize (Hw m' Hm'). nra. }
+  assert (Hterm : qmul (wgt m) (qmul (hd n m d) (hd n m d)) == 0).
+  { apply (qsum_nonneg_zero _ Hnn Hq). apply in_map_iff. exists m. split; [reflexivity | exact Hm]. }
+  revert Hterm. qnorm. intros Hterm. specialize (Hw m Hm).
+  apply Qmult_integral in Hterm. destruct Hterm as [E|E]; [lra|].
+  apply Qmult_integral in E. destruct E; assumption.
+Qed.
+
+(* fixed point under the natural hypotheses: positive weights and a Jacobian of full column rank *)
+Lemma zero_residual_fixed_point_rank : forall n ms d,
+  (forall m, In m ms -> res m == 0) ->
+  (forall m, In m ms -> 0 < wgt m) ->
+  (forall j, (j < n)%nat -> gain_times n ms d j == rhs j ms) ->
+  (forall d', (forall m, In m ms -> hd n m d' == 0) -> forall k, (k < n)%nat -> nth k d' 0 == 0) ->
+  forall k, (k < n)%nat -> nth k d 0 == 0.
+Proof.
+  intros n ms d Hr Hw Hs Hrank k Hk. apply Hrank; [|exact Hk].
+  apply gain_kernel; [exact Hw|]. intros j Hj. rewrite (Hs j Hj). apply rhs_zero_residual. exact Hr.
+Qed.
+
+Lemma merge_mask_rows_aligned : forall m1 m2,
+  strictly_sorted m1 = true -> strictly_sorted m2 = true ->
+  rows_P m1 m2 = rows_hx m1 /\ rows_Q m1 m2 = rows_hx m2.
+Proof. intros m1 m2 H1 H2. split; [apply rows_P_correct | apply rows_Q_correct]; assumption. Qed.
+
+Lemma zero_residual_global_minimum : forall ms ms',
+  (forall m, In m ms -> res m == 0) -> (forall m, In m ms' -> 0 <= wgt m) ->
+  objective ms == 0 /\ objective ms <= objective ms'.
+Proof.
+  intros ms ms' H W. pose proof (objective_zero_residual ms H) as A. pose proof (objective_nonneg ms' W) as B.
+  split; [exact A | rewrite A; exact B].
+Qed.
+
+Lemma full_rank_nonvacuous :
+  let ms := [{| hrow := [1; 0]; wgt := 4; res := 0 |}; {| hrow := [1; 1]; wgt := 1; res := 0 |}] in
+  (forall m, In m ms -> 0 < wgt m) /\ (forall m, In m ms -> res m == 0) /\
+  (forall d', (forall m, In m ms -> hd 2 m d' == 0) -> forall k, (k < 2)%nat -> nth k d' 0 == 0).
+Proof.
+  cbv zeta. split; [|split].
+  - intros m [<-|[<-|[]]]; reflexivity.
+  - intros m [<-|[<-|[]]]; reflexivity.
+  - intros d' H k Hk.
+    pose proof (H _ (or_introl eq_refl)) as A. pose proof (H _ (or_intror (or_introl eq_refl))) as B.
+    unfold hd, hd_l, col in A, B. cbn [seq map hrow nth] in A, B. rewrite !qsum_cons, qsum_nil in A, B. qnorm.
+    destruct k as [|[|k]]; [lra | lra | lia].
+Qed.
+
+(* repaired rule: the residual handed to the bad-data tests is the residual of the returned state, for every history *)
+Lemma stored_residual_final : forall h z x0 steps,
+  stored_residual h z x0 steps == z - h (final_state h z x0 steps).
+Proof.
+  intros. unfold stored_residual, final_state. destruct (wls_loop h z x0 0 steps) as [x r]. cbn [fst]. qnorm. reflexivity.
+Qed.
+Lemma stored_residual_exact_data : forall h z x0 steps,
+  z == h (final_state h z x0 steps) -> stored_residual h z x0 steps == 0.
+Proof. intros h z x0 steps H. rewrite stored_residual_final. lra. Qed.
